@@ -19,6 +19,7 @@ RULE = ("case = random family + type from the schema-supported grammar (no re.Pa
         "jsonschema.Draft202012Validator against build_json_schema(T) for the four (dialect, all_refs) combinations "
         "(OpenAPI references rewritten onto the document's own definitions). Structural monitors: 'required' equals the "
         "fields without default / factory; distinct classes sharing one definition show up as rejected documents (homonym / generic-twice families). distinct_nontrivial = distinct (type shape, schema variant, value repr) triples.")
+RULE += " Additions: hierarchies whose root carries a Config with aliases; ancestors' schemas built first."
 ASSUMPTIONS = ["format assertions are off (the validator checks structure, enum/const, types, bounds)",
                "the jsonschema package is the trusted Draft 2020-12 validator"]
 BUDGET_S = {"quick": 180, "thorough": 1500}
